@@ -393,6 +393,14 @@ func (dr *dirRepo) BlobCreate(opts ...BlobOpt) (BlobCreator, string, error) {
 			// the content was pushed again, restart the GC grace period
 			now := time.Now()
 			_ = os.Chtimes(blobName, now, now)
+			// the repo changed, the scheduled GC has to visit it after the new grace period
+			if !conf.locked {
+				dr.mu.Lock()
+			}
+			dr.timeBlob = now
+			if !conf.locked {
+				dr.mu.Unlock()
+			}
 			return nil, "", types.ErrBlobExists
 		}
 	}
